@@ -3,7 +3,7 @@
    sumor -> OCaml types; fst/snd/andb/orb/negb inlined).  nat, positive, N, Z stay inductive. *)
 Require Extraction.
 Require Import ExtrOcamlBasic.
-From MD Require Import Bytes Generated DecodeDefs HeaderDefs MimeDefs NamesDefs IODefs MainDefs EvalDefs.
+From MD Require Import Bytes Generated DecodeDefs HeaderDefs MimeDefs NamesDefs IODefs MainDefs EvalDefs InterpDefs.
 Extraction "mdmodel.ml" Bytes.cview DecodeDefs.base64_decode_raw DecodeDefs.base64_decode
   DecodeDefs.quoted_printable_decode DecodeDefs.rfc2047_decode
   HeaderDefs.parse_message HeaderDefs.get_header HeaderDefs.set_header HeaderDefs.message_write
@@ -13,4 +13,5 @@ Extraction "mdmodel.ml" Bytes.cview DecodeDefs.base64_decode_raw DecodeDefs.base
   NamesDefs.pathjoin NamesDefs.pathslice NamesDefs.slice_spec NamesDefs.dec
   IODefs.replay_action IODefs.crash_violation IODefs.file_at IODefs.exactly_once
   MainDefs.main
-  EvalDefs.run_rules EvalDefs.spec_run EvalDefs.summary EvalDefs.clean EvalDefs.event_flags EvalDefs.compile EvalDefs.entries_of.
+  EvalDefs.run_rules EvalDefs.spec_run EvalDefs.summary EvalDefs.clean EvalDefs.event_flags EvalDefs.compile EvalDefs.entries_of
+  InterpDefs.interp InterpDefs.label_value InterpDefs.exec_argv InterpDefs.expandmacros InterpDefs.fold_case.
